@@ -59,6 +59,11 @@ impl Emitter for RecE {
     }
 }
 
+/// the `setup:` function of the `ssetup` / `asetup` fixtures: from now on the filter accepts
+pub fn enable_filter() {
+    ENABLED.with(|e| *e.borrow_mut() = true);
+}
+
 pub struct CtlF;
 impl Filter for CtlF {
     fn matches<E: emit::event::ToEvent>(&self, _: E) -> bool {
@@ -200,6 +205,8 @@ fn run(line: &str) -> String {
         let enabled = match form {
             "bwhenf" => false,
             "bwhent" => true,
+            // `setup:` runs before the span is created and switches the filter on
+            "ssetup" | "asetup" => true,
             _ => enabled,
         };
         let expected = if enabled && form != "bunstarted" { 1 } else { 0 };
